@@ -32,6 +32,7 @@ TUS = {
     "t_memfp": {"sources": ["t_mem.cpp"], "parts": INT_PARTS + FLT_PARTS, "flags": ["-DVX_FOOTPRINT=1"]},
     "t_denom": {"sources": ["t_denom.cpp"], "parts": INT_PARTS},
     "t_denomv": {"sources": ["t_denom.cpp"], "parts": INT_PARTS, "flags": ["-DVX_DENOM_VECTOR=1"]},
+    "t_scalar": {"sources": ["t_scalar.cpp"], "parts": INT_PARTS + FLT_PARTS},
     "t_select": {"sources": ["t_select.cpp"], "parts": INT_PARTS + FLT_PARTS},
 }
 
@@ -221,5 +222,17 @@ PROPS = {
         "explanation": "state = the constructed vector denominator; value() and div, /, %, /=, %= per lane against C++ n/d and n%d; lanes hold different divisors and numerators so a "
                        "cross-lane dependency shows as a wrong lane; a missing broadcast constructor or an inaccessible value() is a violation",
         "assumptions": ["Denominator<int64_t>(-1) (a C14 finding: it traps) is not executed on the broadcast path"],
+    },
+    "C16": {
+        "tus": ["t_scalar"],
+        "configs": scalar_cfgs,
+        "rule": "for every vector type and every operation that has a scalar overload for exactly its element type (bit functions, rotations, min/max/minmax/clamp, abs/neg_abs/negate, "
+                "average/midpoint, keep/clear/blend/set_bits, the float function family): every lane of the vector result against the scalar overload applied to that lane's inputs, over "
+                "D8, D16, D32 (thorough; L32 quick), L64, F32L u F32H, F64S for unary and D8^2, D16xL16 (all pairs thorough), L^2, F32L^2, F64L^2 for binary operations, triples for the "
+                "mask-driven ones; the mixed-signedness cmp_* functions against comparison in __int128. Configurations: the scalar feature sets {none, X86, POPCNT, LZCNT, BMI, BMI2, all} "
+                "and the vector arm cover. Inputs outside an operation's domain (clamp with lo >= hi, NaN for min/max) are not compared.",
+        "explanation": "differential exploration: the reference for a lane is AVEL's own scalar overload (selected without implicit promotion), so no expected values are written by hand; "
+                       "a disagreement names the operation, type, configuration and input",
+        "assumptions": ["scalar overloads against the plain C++ model are decided by C06/C07/C10-C13 (scalar subjects there)"],
     },
 }
